@@ -101,6 +101,12 @@ func main() {
 	smtDir := filepath.Join(verifDir, "out", "smt", *prop)
 	os.RemoveAll(smtDir)
 	tD := time.Now()
+	ex.knownNames = map[string]bool{}
+	for _, k := range loadKnown() {
+		if k.Property == *prop && k.Status == "known" {
+			ex.knownNames[k.Obligation] = true
+		}
+	}
 	stats := ex.Discharge(smtDir, tmo, seed, 12, *tier == "thorough")
 	if os.Getenv("GOVC_DEBUG") != "" {
 		fmt.Fprintf(os.Stderr, "discharge took %.1fs\n", time.Since(tD).Seconds())
